@@ -10,6 +10,11 @@
 (*   Truncate(n)           the encoding is cut after n bytes               *)
 (*   Inflate(node, w)      the node's length field claims 2^w - 1 items    *)
 (*   Nest(d)               the node is buried under d nested arrays        *)
+(*   CutHead(node,mt,w,f)  the node is replaced by a head of major type mt *)
+(*                         announcing a w-byte length field of which only  *)
+(*                         0 (f = 0) or w - 1 (f = 1) bytes are present -  *)
+(*                         inside a bstr wrapper this is a WELL-FORMED     *)
+(*                         outer item whose content is cut short           *)
 (* TLC enumerates the space (exhaustively for DEPTH = 1, by simulation     *)
 (* for longer mutation sequences) and prints it for replay.                *)
 (***************************************************************************)
@@ -24,6 +29,7 @@ Mutations == {[m |-> "replace", node |-> n, kind |-> k] : n \in 1..NNODES, k \in
              \cup {[m |-> "truncate", n |-> n] : n \in 0..(NBYTES - 1)}
              \cup {[m |-> "inflate", node |-> n, w |-> w] : n \in 1..NNODES, w \in Widths}
              \cup {[m |-> "nest", node |-> n, d |-> d] : n \in {1, NNODES \div 2, NNODES}, d \in NestDepths}
+             \cup {[m |-> "cuthead", node |-> n, mt |-> t, w |-> w, f |-> f] : n \in 1..NNODES, t \in 2..5, w \in {1, 2, 4, 8}, f \in {0, 1}}
 Apply == /\ Len(muts) < DEPTH
          /\ IF SIM THEN muts' = Append(muts, RandomElement(Mutations))
                    ELSE \E x \in Mutations : muts' = Append(muts, x)
